@@ -85,6 +85,47 @@ def _norm_copy_out(text):
     return _COPY_OUT_RE.sub("READ(", text)
 
 
+def _view(ctx, b, depth=3):
+    """`b` with its private, non-primitive helpers inlined at MIR level (cached); `b` itself if there is nothing to inline"""
+    cache = ctx.__dict__.setdefault("_views", {})
+    if b.path not in cache:
+        try:
+            b2, inl = derive_inlined(ctx, b, depth=depth)
+        except Exception:
+            b2, inl = b, []
+        cache[b.path] = b2 if inl else b
+    return cache[b.path]
+
+
+def _relax_machine(mc):
+    out = []
+    for (conds, ret, stores) in mc["paths"]:
+        st2 = tuple(s for s in stores if not (s[1] == "null" and s[0] != mc["E"] and ("meet", None, True) in conds))
+        out.append((conds, ret, st2))
+    return sorted(out, key=str)
+
+
+def _machine_ok(ctx, mc, m):
+    r = ctx.roles
+    link = r.L_LRU if m == "next" else r.L_MRU
+    return _relax_machine(mc) == expected_machine(mc["Y"], mc["O"], mc["E"], link)
+
+
+def best_cursor_machine(ctx, b, eps, m, res=None):
+    """the cursor machine of `b`; when it is unreadable or deviates, the machine of `b` with its private helpers inlined (the step
+    may be shared with the other direction through a helper that takes a direction flag)"""
+    mc, why = cursor_machine(ctx, b, eps)
+    if mc is None or not _machine_ok(ctx, mc, m):
+        b2 = _view(ctx, b)
+        if b2 is not b:
+            mc2, why2 = cursor_machine(ctx, b2, eps)
+            if mc2 is not None and (mc is None or _machine_ok(ctx, mc2, m)):
+                if res is not None:
+                    res.note("`%s` judged with its private helpers inlined" % b.path)
+                return mc2, why2
+    return mc, why
+
+
 def cursor_machine(ctx, body, eps):
     """canonical description of a next/next_back body of a cursor ADT, or (None, reason)"""
     r = ctx.roles
@@ -128,6 +169,8 @@ def cursor_machine(ctx, body, eps):
                     neg = (" Ne " in ds or "::ne(" in ds) != ds.startswith("!")       # `a != b` / `!(a == b)` test the same thing
                     m = ("meet", None, (chosen == 0) if neg else (chosen != 0))
             if m is None:
+                if ds in ("0", "1", "true", "false") or (isinstance(d, tuple) and d and d[0] == "const") or te._const_discr(d) is not None:
+                    continue        # a test on a compile-time constant (a direction flag of an inlined helper) describes nothing
                 m = ("other", ds, chosen)
             conds.append(m)
         rs = _norm_copy_out(show(res.ret))
@@ -191,7 +234,7 @@ def c12(ctx, res, with_drops=True):
             if b is None:
                 res.violate("C12.1:%s:%s:missing" % (adt, m), "`%s` has no `%s`" % (adt, m), None, {}, "C12.1 cursor machine")
                 continue
-            mc, why = cursor_machine(ctx, b, eps)
+            mc, why = best_cursor_machine(ctx, b, eps, m, res)
             res.count("C12.1 cursor machines")
             if mc is None:
                 res.violate("C12.1:%s:%s:unrecognised" % (adt, m), "cannot read `%s::%s` as a two-cursor step: %s" % (adt, m, why),
@@ -245,10 +288,24 @@ def c12(ctx, res, with_drops=True):
 
 
 def check_cursor_ctor(ctx, res, b, adt, front, back):
+    res.count("C12.2 cursor constructors")
+    good, why = _cursor_ctor_probs(ctx, b, front, back)
+    if not good:
+        b2 = _view(ctx, b)
+        if b2 is not b:
+            good2, why2 = _cursor_ctor_probs(ctx, b2, front, back)
+            if good2:
+                good, why = True, []
+                res.note("C12.2 constructor `%s` judged with its private helpers inlined" % b.path)
+    res.oblige("C12.2 `%s` starts with (seal.LRU-link, seal.MRU-link), or two null cursors iff the cache is empty" % b.path, good, detail=why,
+               key="C12.2:%s:constructor" % b.path, loc=span_str(b.span), rule="C12.2 constructor",
+               msg="constructor `%s`: %s" % (b.path, "; ".join(why)))
+
+
+def _cursor_ctor_probs(ctx, b, front, back):
     r = ctx.roles
     te = _te(ctx, True)
     rs = te.all_results(b, max_paths=20)
-    res.count("C12.2 cursor constructors")
     good = True
     why = []
     kinds = set()
@@ -277,9 +334,7 @@ def check_cursor_ctor(ctx, res, b, adt, front, back):
     if kinds != {"empty", "full"}:
         good = False
         why.append("expected an empty and a non-empty construction, found %s" % sorted(kinds))
-    res.oblige("C12.2 `%s` starts with (seal.LRU-link, seal.MRU-link), or two null cursors iff the cache is empty" % b.path, good, detail=why,
-               key="C12.2:%s:constructor" % b.path, loc=span_str(b.span), rule="C12.2 constructor",
-               msg="constructor `%s`: %s" % (b.path, "; ".join(why)))
+    return good, why
 
 
 def check_wrappers(ctx, res, cursor_names):
@@ -370,6 +425,49 @@ def check_wrappers(ctx, res, cursor_names):
     res.floor("C12.2 wrapper methods", n, 12)
 
 
+def _drop_discipline_probs(ctx, db):
+    cg = ctx.cg
+    g = cfg_of(db)
+    calls = cg.calls.get(db.path, [])
+    nexts = [c for c in calls if (c.trait in ("std::iter::Iterator", "std::iter::DoubleEndedIterator")) and c.name in ("next", "next_back")]
+    clears = [c for c in calls if c.model and c.model.get("table") == "clear" and norm(c.resolved or c.nominal).endswith("clear_no_drop")]
+    loops = g.loops()
+    why = []
+    loop_h = None
+    for h, blocks in loops.items():
+        if any(c.bb in blocks for c in nexts):
+            loop_h = h
+            loop_blocks = blocks
+    if loop_h is None:
+        why.append("no loop that runs the iterator to exhaustion")
+    if not clears:
+        why.append("no clear_no_drop of the table whose entries were moved out")
+    if loop_h is not None and clears:
+        rets = g.return_blocks()
+        for c in clears:
+            if c.bb in loop_blocks:
+                why.append("clear_no_drop inside the exhaustion loop")
+            if not g.dominates(loop_h, c.bb):
+                why.append("clear_no_drop can be reached without passing the exhaustion loop")
+        if not g.all_paths_pass(0, rets, [c.bb for c in clears]):
+            why.append("a path returns without clear_no_drop (the moved-out entries would be dropped again with the table)")
+        if not g.all_paths_pass(0, [c.bb for c in clears], [loop_h]):
+            why.append("a path reaches clear_no_drop without running the exhaustion loop (unconsumed entries leak)")
+        # a table that is handed (back) to the cache must already have been emptied: every swap/replace of a table is dominated by the clear
+        swaps = ctx.eff.direct[db.path]["swap_table"]
+        for sc in swaps:
+            if not any(g.dominates(c.bb, sc.bb) for c in clears):
+                why.append("the table is handed to the cache before it was marked empty (a panic while dropping the remaining entries leaves the "
+                           "cache owning moved-out entries)")
+            if loop_h is not None and not g.dominates(loop_h, sc.bb):
+                why.append("the table is handed to the cache before the remaining entries were taken out")
+        # the loop must be left only through the None edge of next(): the loop exit edge leaves from the switch on the call's result
+        for c in nexts:
+            if c.bb in loop_blocks:
+                pass
+    return why
+
+
 def check_owning_drops(ctx, res, prop):
     """Drop of every holder of a copy-out iterator: on every path first run the iterator to exhaustion, then mark the table that
     holds the (now moved-out) entries empty without dropping; nothing else may precede the exhaustion"""
@@ -389,44 +487,18 @@ def check_owning_drops(ctx, res, prop):
             continue
         n += 1
         res.count("%s.3 owning iterator drops" % prop)
-        g = cfg_of(db)
-        calls = cg.calls.get(db.path, [])
-        nexts = [c for c in calls if (c.trait in ("std::iter::Iterator", "std::iter::DoubleEndedIterator")) and c.name in ("next", "next_back")]
-        clears = [c for c in calls if c.model and c.model.get("table") == "clear" and norm(c.resolved or c.nominal).endswith("clear_no_drop")]
-        loops = g.loops()
-        why = []
-        loop_h = None
-        for h, blocks in loops.items():
-            if any(c.bb in blocks for c in nexts):
-                loop_h = h
-                loop_blocks = blocks
-        if loop_h is None:
-            why.append("no loop that runs the iterator to exhaustion")
-        if not clears:
-            why.append("no clear_no_drop of the table whose entries were moved out")
-        if loop_h is not None and clears:
-            rets = g.return_blocks()
-            for c in clears:
-                if c.bb in loop_blocks:
-                    why.append("clear_no_drop inside the exhaustion loop")
-                if not g.dominates(loop_h, c.bb):
-                    why.append("clear_no_drop can be reached without passing the exhaustion loop")
-            if not g.all_paths_pass(0, rets, [c.bb for c in clears]):
-                why.append("a path returns without clear_no_drop (the moved-out entries would be dropped again with the table)")
-            if not g.all_paths_pass(0, [c.bb for c in clears], [loop_h]):
-                why.append("a path reaches clear_no_drop without running the exhaustion loop (unconsumed entries leak)")
-            # a table that is handed (back) to the cache must already have been emptied: every swap/replace of a table is dominated by the clear
-            swaps = ctx.eff.direct[db.path]["swap_table"]
-            for sc in swaps:
-                if not any(g.dominates(c.bb, sc.bb) for c in clears):
-                    why.append("the table is handed to the cache before it was marked empty (a panic while dropping the remaining entries leaves the "
-                               "cache owning moved-out entries)")
-                if loop_h is not None and not g.dominates(loop_h, sc.bb):
-                    why.append("the table is handed to the cache before the remaining entries were taken out")
-            # the loop must be left only through the None edge of next(): the loop exit edge leaves from the switch on the call's result
-            for c in nexts:
-                if c.bb in loop_blocks:
-                    pass
+        why = _drop_discipline_probs(ctx, db)
+        if why:
+            # the exhausting loop may live in a private helper: judge Drop with its helpers (but not the iterator steps) inlined
+            from ..inline import derive
+            prims = _named_primitives(ctx)
+            IT = ("std::iter::Iterator", "std::iter::DoubleEndedIterator")
+            db2, inl = derive(ctx, db, lambda tg: tg.path not in prims and not tg.is_closure and tg.impl_trait not in IT, depth=2)
+            if inl:
+                why2 = _drop_discipline_probs(ctx, db2)
+                if not why2:
+                    res.note("%s.3 `Drop for %s` judged with %s inlined" % (prop, adt, ", ".join(x.split("::")[-1] for x in inl)))
+                    why = []
         res.oblige("%s.3 `Drop for %s` exhausts the iterator on every path, then marks the table empty without dropping" % (prop, adt), not why,
                    detail=why, key="%s.3:%s:drop-discipline" % (prop, adt), loc=span_str(db.span), rule="%s.3 owning-iterator drop" % prop,
                    msg="`Drop for %s`: %s" % (adt, "; ".join(why)))
@@ -557,7 +629,7 @@ def c15(ctx, res):
         if promos:
             probs.append("retain relinks an entry (%s): survivors must keep their place" % promos[0][1])
         # (4) next cursor: the visited entry's LRU-side link
-        later = [d for (d, ch) in conds[1:] if ("PartialEq>::ne(" in d or "PartialEq>::eq(" in d) and seal in d]
+        later = [d for (d, ch) in conds[1:] if ("PartialEq>::ne(" in d or "PartialEq>::eq(" in d or " Eq " in d or " Ne " in d) and seal in d]
         if not later:
             probs.append("no second loop test after visiting an entry")
         else:
@@ -618,7 +690,7 @@ def c17(ctx, res):
             res.count("C17 constructors of &mut holders")
             probs = []
             try:
-                rs = te.all_results(b, max_paths=30)
+                rs = _te_stores(ctx).all_results(b, max_paths=30)       # (helpers that reset the seal / the size are inlined with their stores)
             except TooComplex as e:
                 rs = []
                 probs.append(str(e))
@@ -983,36 +1055,38 @@ def c06(ctx, res):
             res.count("C06.3 copy-out call sites")
             okc = False
             why = ""
-            if body.impl_self and body.impl_self.get("name") in co and body.name in ("next", "next_back"):
-                okc = True       # the holder's Drop discipline is checked below
-            elif d["swap_table"] and any(cls == "clear" for (cls, _c) in d["table"]) and any(cls in ("insert", "insert_grow") for (cls, _c) in d["table"]):
-                # relocation: copies go into a new table, the old table is emptied without dropping, on every path to return
-                g = cfg_of(body)
-                clears = [cc.bb for (cls, cc) in d["table"] if cls == "clear"]
-                okc = g.all_paths_pass(c.bb, g.return_blocks(), clears)
-                why = "" if okc else "a path from the copy-out to a return skips emptying the source table without dropping"
+            def relocation_ok(X):
+                """X copies entries out, inserts them into another table, swaps the tables and empties the source without dropping on
+                every path from each copy-out to a return"""
+                dX = eff.direct.get(X.path)
+                if dX is None:
+                    return False
+                gX = cfg_of(X)
+                coX = [c2 for c2 in cg.calls.get(X.path, []) if c2.target is not None and eff.direct[c2.target.path]["copy_out"]]
+                clearsX = [cc.bb for (cls, cc) in dX["table"] if cls == "clear"]
+                return bool(dX["swap_table"] and clearsX and coX and any(cls in ("insert", "insert_grow") for (cls, _c) in dX["table"])
+                            and all(gX.all_paths_pass(c2.bb, gX.return_blocks(), clearsX) for c2 in coX))
+
+            if body.impl_self and body.impl_self.get("name") in co:
+                okc = True       # a method of a copy-out iterator type (its step, or a helper of it): the holder's Drop discipline is checked below
+            elif relocation_ok(body):
+                okc = True
             else:
                 why = "bitwise copy-out outside an owning iterator or a relocation"
-                # the copying loop may have been extracted from the relocation: judge every caller with this body inlined
-                from ..inline import derive
-                callers = [cc.body for cc in cg.callers_of(p) if cc.body is not None and not cc.body.is_closure]
-                ok_all = bool(callers)
-                for X in callers:
-                    X2, inl = derive(ctx, X, lambda tg, _p=p: tg.path == _p, depth=1)
-                    d2 = eff.direct.get(X2.path)
-                    if not inl or d2 is None:
-                        ok_all = False
-                        break
-                    g2 = cfg_of(X2)
-                    co2 = [c2 for c2 in cg.calls.get(X2.path, []) if c2.target is not None and eff.direct[c2.target.path]["copy_out"]]
-                    clears2 = [cc.bb for (cls, cc) in d2["table"] if cls == "clear"]
-                    if not (d2["swap_table"] and clears2 and any(cls in ("insert", "insert_grow") for (cls, _c) in d2["table"]) and co2
-                            and all(g2.all_paths_pass(c2.bb, g2.return_blocks(), clears2) for c2 in co2)):
-                        ok_all = False
-                        break
-                if ok_all:
+                # the relocation may be split over private helpers (the copying loop, the commit): judge this body, then its callers,
+                # with their helpers inlined
+                tried = []
+                b_view = _view(ctx, body)
+                if b_view is not body and relocation_ok(b_view):
                     okc, why = True, ""
-                    res.note("C06.3 copy-out in `%s`: judged inlined into %s" % (p, ", ".join(x.path for x in callers)))
+                    tried.append(body.path)
+                else:
+                    callers = [cc.body for cc in cg.callers_of(p) if cc.body is not None and not cc.body.is_closure]
+                    if callers and all(relocation_ok(_view(ctx, X)) for X in callers):
+                        okc, why = True, ""
+                        tried = [x.path for x in callers]
+                if okc:
+                    res.note("C06.3 copy-out in `%s`: judged with helpers inlined (%s)" % (p, ", ".join(tried)))
             res.oblige("C06.3 copy-out in `%s` is completed by marking the source table empty without dropping" % p, okc, detail=why,
                        key="C06.3:%s:copy-out-protocol" % p, loc=c.loc, rule="C06.3 copy-out protocol",
                        msg="`%s` copies an entry out bitwise (%s): %s -- the source slot would be dropped again" % (p, c.callee, why))
@@ -1141,9 +1215,10 @@ def c04(ctx, res, only_hash_agreement=False):
                    loc=span_str(b.span), rule="C04.1 hash function", msg="`%s`: %s" % (b.path, "; ".join(why)))
     # eq closure factories: closures handed to table lookups compare the captured key with the stored key through Borrow
     n_sites = 0
-    for b in ctx.facts.bodies:
-        if b.file.endswith("mem_size.rs"):
-            continue
+    work = [b for b in ctx.facts.bodies if not b.file.endswith("mem_size.rs")]
+    deferred_done = set()
+    while work:
+        b = work.pop(0)
         tcalls = [c for c in cg.calls.get(b.path, []) if c.model and c.model.get("table") in ("find", "remove", "insert", "insert_grow")]
         if not tcalls:
             continue
@@ -1174,6 +1249,21 @@ def c04(ctx, res, only_hash_agreement=False):
                         owner = "p%d" % i
                 local_table = owner is None
                 h = argt[1]
+                if cls in ("find", "remove") and h[0] == "param" and "#inl" not in b.path:
+                    # the hash is handed in by the caller (a private helper): the site is judged inside every caller, with this
+                    # helper inlined there
+                    if b.path not in deferred_done:
+                        deferred_done.add(b.path)
+                        from ..inline import derive
+                        callers = [cc.body for cc in cg.callers_of(b.path) if cc.body is not None and not cc.body.is_closure]
+                        if not callers:
+                            res.violate("C04.1:%s:%s-site:hash-from-nowhere" % (b.path, cls), "table %s in `%s` takes its hash from a parameter "
+                                        "but the function has no caller" % (cls, b.path), c.loc, {}, "C04.1 hash/eq agreement")
+                        for X in callers:
+                            X2, inl = derive(ctx, X, lambda tg, _p=b.path: tg.path == _p, depth=1)
+                            if inl:
+                                work.append(X2)
+                    continue
                 if cls in ("find", "remove"):
                     eqc = argt[2] if len(argt) > 2 else None
                     key_h = _hash_key(h, hnames, owner, r, probs)
@@ -1197,9 +1287,10 @@ def c04(ctx, res, only_hash_agreement=False):
                         key_h = _hash_key(h, hnames, owner if not local_table else None, r, probs, allow_closure=True)
                         if key_h is not None and not _key_of(key_h, ent):
                             probs.append("inserted with the hash of `%s`, which is not the inserted entry's key (`%s`)" % (show(key_h)[:120], show(ent)[:80]))
-                res.oblige("C04.1 table %s in `%s` uses hash(hasher of the cache, k) and compares with the same k" % (cls, b.path), not probs,
-                           detail=probs, key="C04.1:%s:%s-site" % (b.path, cls), loc=c.loc, rule="C04.1 hash/eq agreement",
-                           msg="table %s in `%s`: %s" % (cls, b.path, "; ".join(probs)))
+                bp = b.path.split("#inl")[0]
+                res.oblige("C04.1 table %s in `%s` uses hash(hasher of the cache, k) and compares with the same k" % (cls, bp), not probs,
+                           detail=probs, key="C04.1:%s:%s-site" % (bp, cls), loc=c.loc, rule="C04.1 hash/eq agreement",
+                           msg="table %s in `%s`: %s" % (cls, bp, "; ".join(probs)))
     res.floor("C04.1 table call sites", n_sites, 6)
     # callers that pass a precomputed hash together with an entry: the hash must be that entry's key's
     for b in ctx.facts.bodies:
@@ -1821,7 +1912,7 @@ def c07(ctx, res):
             b = r.trait_method(trait, m, adt)
             if b is None:
                 continue
-            mc, why = cursor_machine(ctx, b, eps)
+            mc, why = best_cursor_machine(ctx, b, eps, m, res)
             res.count("C07.5 cursor dereference guards")
             ok = mc is not None and mc["E"] is not None and all(
                 (ret == "None") or any(c_[0] == "isnull" and c_[2] is False for c_ in conds) for (conds, ret, stores) in mc["paths"])
